@@ -337,6 +337,9 @@ def ground_truth(plan, stats):
                 EXCL.add(name)
             else:
                 G.add(name)
+    for f in plan["fields"]:
+        if f.get("disc") and f["name"] in value and not isinstance(value[f["name"]], dict):
+            stats["probe:discriminated_field_not_a_mapping"] += 1
     for name, vx in (plan.get("conflict") or {}).items():
         # two spellings with different values: the item is rejected whatever the values are
         if name in value and tdsl.build_value(vx) != value[name]:
